@@ -108,6 +108,7 @@ impl<'a, 'tcx> Cx<'a, 'tcx> {
         let mut val = J::Null;
         let mut def = J::Null;
         let mut fninfo = J::Null;
+        let mut promoted = J::Null;
         match ty.kind() {
             ty::FnDef(did, gargs) => {
                 fninfo = self.callee(*did, gargs);
@@ -120,6 +121,9 @@ impl<'a, 'tcx> Cx<'a, 'tcx> {
                 }
                 if let Const::Unevaluated(u, _) = c.const_ {
                     def = J::s(tcx.def_path_str(u.def));
+                    if let Some(p) = u.promoted {
+                        promoted = self.promoted_ref(u.def, p);
+                    }
                 } else if let Const::Ty(_, ct) = c.const_ {
                     if let ty::ConstKind::Unevaluated(u) = ct.kind() {
                         def = J::s(tcx.def_path_str(u.def));
@@ -133,8 +137,50 @@ impl<'a, 'tcx> Cx<'a, 'tcx> {
             ("val", val),
             ("def", def),
             ("fn", fninfo),
+            ("promoted", promoted),
             ("text", J::s(format!("{}", c.const_))),
         ])
+    }
+
+    /// a promoted `&CONST`: body is `_1 = const X; _0 = &_1` -> the inner constant
+    fn promoted_ref(&self, def: DefId, p: Promoted) -> J {
+        let tcx = self.tcx;
+        if !def.is_local() {
+            return J::Null;
+        }
+        let bodies = tcx.promoted_mir(def);
+        let Some(body) = bodies.get(p) else { return J::Null };
+        let mut target: Option<Local> = None;
+        let mut inner: Option<J> = None;
+        let sub = Cx { tcx, body, owner: self.owner };
+        for bb in body.basic_blocks.iter() {
+            for st in &bb.statements {
+                if let StatementKind::Assign(b) = &st.kind {
+                    let (pl, rv) = &**b;
+                    if pl.local == RETURN_PLACE && pl.projection.is_empty() {
+                        if let Rvalue::Ref(_, _, src) = rv {
+                            if src.projection.is_empty() {
+                                target = Some(src.local);
+                            }
+                        }
+                    }
+                }
+            }
+        }
+        let Some(t) = target else { return J::Null };
+        for bb in body.basic_blocks.iter() {
+            for st in &bb.statements {
+                if let StatementKind::Assign(b) = &st.kind {
+                    let (pl, rv) = &**b;
+                    if pl.local == t && pl.projection.is_empty() {
+                        if let Rvalue::Use(Operand::Constant(c), _) = rv {
+                            inner = Some(sub.constant(c));
+                        }
+                    }
+                }
+            }
+        }
+        inner.unwrap_or(J::Null)
     }
 
     fn operand(&self, o: &Operand<'tcx>) -> J {
